@@ -134,7 +134,7 @@ impl Property for C01 {
         40_000
     }
     fn random_cases(&self, tier: Tier) -> u64 {
-        tier.pick(60_000, 1_500_000)
+        tier.pick(600_000, 3_000_000)
     }
     fn run(&self, t: &mut Tape, ctx: &mut CaseCtx) -> Verdict {
         let (prog, info) = gen_case(t, 24, true, true);
